@@ -46,7 +46,8 @@ ASSUMPTIONS = [
 REQUIRED = ["tree_form_checked", "table_form_checked", "file_form_checked", "idempotence_checked",
             "tap_sort_nodes_impl", "is_sorted_true", "is_sorted_on_inputs", "tree_root_not_at_0", "size_sweep_cases",
             "read_options_by_position", "sorted_results_edited_then_sorted_again",
-            "worker_results_kept_across_another_sort"]
+            "worker_results_kept_across_another_sort",
+            "sorted_under_custom_column_names"]
 FLOOR = {"quick": 1000, "thorough": 60000}
 SHARDS = {"quick": 8, "thorough": 16}
 
@@ -163,6 +164,12 @@ def _tree_form(ctx, case, spec):
     ctx.count("idempotence_checked")
     if r:
         return ctx.violation(r[0], r[1], case)
+    if type(tree).__name__ == "Tree" and case["tseed"] % 3 == 0:
+        # the same tree held under custom column names (`names=`): the same sorted tree
+        r = G.same_under_renaming(sort_tree, tree, level=case["tseed"] // 3 % 2)
+        ctx.count("sorted_under_custom_column_names")
+        if r:
+            return ctx.violation("custom-column-names", f"sort_tree: {r}", case)
     # the two-step use of the exported worker: the (new ids, new parents, row index) of this
     # topology are kept while another topology of the same size is sorted, and are applied afterwards
     if len(out.id()) >= 2:
